@@ -232,6 +232,20 @@ class EvolvableNetwork(EvolvableModule, metaclass=NetworkMeta):
         output_activation = encoder_config.get("output_activation")
         if output_activation is None:
             activation = encoder_config.get("activation")
+            if activation is None and encoder_cls is None and not recurrent:
+                # No activation specified: resolve it to the default of this encoder type,
+                # so that rebuilding the network from its own `net_config` (clone,
+                # checkpoint) gives the same output activation as the original
+                default_config = get_default_encoder_config(
+                    observation_space, simba=simba
+                )
+                default_config = (
+                    default_config
+                    if isinstance(default_config, dict)
+                    else asdict(default_config)
+                )
+                activation = default_config.get("activation")
+
             encoder_config["output_activation"] = activation
 
         if encoder_cls is not None:
